@@ -74,6 +74,21 @@ func c19Pre(c *checkCtx) {
 	}
 	for i := range pri {
 		if pri[i] != ins[i] {
+			// Either the instrumentation changed behaviour, or the library itself does not
+			// answer the same call the same way twice (e.g. an error text built by ranging over a
+			// map).  Ask the pristine build a few more times: if IT disagrees with itself, that is
+			// a violation of C19 (the same first call of a fresh process, different outcomes).
+			for k := 0; k < 6; k++ {
+				again, err := oneshotOutcome(c.env.pristine, c.seed, c.tier, i)
+				if err == nil && again != pri[i] {
+					c.preViolation = &found{I: i, From: i, Viol: Violation{Class: "C19" + freshNondetSuffix, Key: fmt.Sprintf("corpus item %d", i),
+						Detail: fmt.Sprintf("corpus item %d executed as the first call of fresh processes of the pristine build gives different outcomes:\n  %s\n  %s", i, clip(pri[i], 600), clip(again, 600))}}
+					break
+				}
+			}
+			if c.preViolation != nil {
+				break
+			}
 			c.env.cleanup()
 			exit2("instrumentation infidelity: corpus item %d behaves differently in a fresh process of the instrumented build (simulator inert) and of the pristine build:\n  pristine     %s\n  instrumented %s", i, clip(pri[i], 500), clip(ins[i], 500))
 		}
@@ -112,4 +127,22 @@ func corpusCount(c *checkCtx) int {
 		exit2("empty corpus")
 	}
 	return n
+}
+
+const freshNondetSuffix = ":first-call-of-a-fresh-process-is-not-deterministic"
+
+// freshNondet re-executes corpus item i in several fresh pristine processes and reports
+// whether two of them disagree.
+func freshNondet(c *checkCtx, i int) (string, string, bool) {
+	first, err := oneshotOutcome(c.env.pristine, c.seed, c.tier, i)
+	if err != nil {
+		return "", "", false
+	}
+	for k := 0; k < 12; k++ {
+		again, err := oneshotOutcome(c.env.pristine, c.seed, c.tier, i)
+		if err == nil && again != first {
+			return first, again, true
+		}
+	}
+	return first, "", false
 }
